@@ -3,28 +3,353 @@ import WindVerif.Spec.CacheOps
 namespace WindVerif.Cache.LfuSpec
 open WindVerif.Cache
 
+@[simp] theorem lookup_nil (k : Key) : lookup [] k = none := rfl
+
+theorem lookup_cons (x : Key × Val × Nat) (xs : St) (k : Key) :
+    lookup (x :: xs) k = if x.1 = k then some (x.2.1, x.2.2) else lookup xs k := by
+  simp only [lookup, List.map_cons, List.lookup_cons]
+  by_cases h : x.1 = k
+  · simp [h]
+  · have : (k == x.1) = false := by simp; exact fun h' => h h'.symm
+    simp [h, this]
+
+theorem lookup_eq_none_iff (l : St) (k : Key) : lookup l k = none ↔ k ∉ l.map (·.1) := by
+  induction l with
+  | nil => simp
+  | cons x xs ih =>
+    rw [lookup_cons]
+    by_cases h : x.1 = k
+    · simp [h]
+    · have h' : ¬ k = x.1 := fun h' => h h'.symm
+      simp only [h, if_false, ih, List.map_cons, List.mem_cons, h', false_or]
+
+theorem lookup_of_mem (l : St) (hn : (l.map (·.1)).Nodup) (e : Key × Val × Nat) (he : e ∈ l) :
+    lookup l e.1 = some (e.2.1, e.2.2) := by
+  induction l with
+  | nil => simp at he
+  | cons x xs ih =>
+    rw [lookup_cons]
+    simp only [List.map_cons, List.nodup_cons] at hn
+    rcases List.mem_cons.1 he with rfl | he
+    · simp
+    · have : x.1 ≠ e.1 := fun h => hn.1 (h ▸ List.mem_map_of_mem he)
+      simp [this, ih hn.2 he]
+
+theorem mem_of_lookup (l : St) (k : Key) (v : Val) (c : Nat) (h : lookup l k = some (v, c)) : (k, v, c) ∈ l := by
+  induction l with
+  | nil => simp at h
+  | cons x xs ih =>
+    rw [lookup_cons] at h
+    by_cases hx : x.1 = k
+    · simp [hx] at h
+      obtain ⟨a, b, c'⟩ := x
+      simp_all
+    · simp [hx] at h
+      exact List.mem_cons_of_mem _ (ih h)
+
+
+/-! ### `insertBump` / `bump` -/
+
+theorem mem_insertBump (e a : Key × Val × Nat) (l : St) : a ∈ insertBump e l ↔ a = e ∨ a ∈ l := by
+  induction l with
+  | nil => simp [insertBump]
+  | cons x xs ih =>
+    simp only [insertBump]
+    split
+    · simp only [List.mem_cons, ih]
+      constructor
+      · rintro (h | h | h)
+        · exact Or.inr (Or.inl h)
+        · exact Or.inl h
+        · exact Or.inr (Or.inr h)
+      · rintro (h | h | h)
+        · exact Or.inr (Or.inl h)
+        · exact Or.inl h
+        · exact Or.inr (Or.inr h)
+    · simp only [List.mem_cons]
+
+theorem insertBump_keys_perm (e : Key × Val × Nat) (l : St) :
+    ((insertBump e l).map (·.1)).Perm (e.1 :: l.map (·.1)) := by
+  induction l with
+  | nil => simp [insertBump]
+  | cons x xs ih =>
+    simp only [insertBump]
+    split
+    · simp only [List.map_cons]
+      exact (List.Perm.cons _ ih).trans (List.Perm.swap _ _ _)
+    · simp
+
+theorem bump_keys_perm (k : Key) (nv : Option Val) (l : St) :
+    ((bump k nv l).map (·.1)).Perm (l.map (·.1)) := by
+  induction l with
+  | nil => simp [bump]
+  | cons x xs ih =>
+    simp only [bump]
+    split
+    · rename_i h
+      refine (insertBump_keys_perm _ xs).trans ?_
+      simp [h]
+    · simp only [List.map_cons]
+      exact List.Perm.cons _ ih
+
+theorem lookup_insertBump_ne (e : Key × Val × Nat) (l : St) (k' : Key) (h : e.1 ≠ k') :
+    lookup (insertBump e l) k' = lookup l k' := by
+  induction l with
+  | nil => simp [insertBump, lookup_cons, h]
+  | cons x xs ih =>
+    simp only [insertBump]
+    split
+    · simp only [lookup_cons, ih]
+    · simp only [lookup_cons, h, if_false]
+
+theorem lookup_insertBump_self (e : Key × Val × Nat) (l : St) (h : e.1 ∉ l.map (·.1)) :
+    lookup (insertBump e l) e.1 = some (e.2.1, e.2.2) := by
+  induction l with
+  | nil => simp [insertBump, lookup_cons]
+  | cons x xs ih =>
+    simp only [List.map_cons, List.mem_cons, not_or] at h
+    simp only [insertBump]
+    split
+    · have : x.1 ≠ e.1 := fun h' => h.1 h'.symm
+      simp only [lookup_cons, this, if_false, ih h.2]
+    · simp [lookup_cons]
+
+theorem lookup_bump_ne (k : Key) (nv : Option Val) (l : St) (k' : Key) (h : k' ≠ k) :
+    lookup (bump k nv l) k' = lookup l k' := by
+  induction l with
+  | nil => simp [bump]
+  | cons x xs ih =>
+    simp only [bump]
+    split
+    · rename_i hx
+      have : x.1 ≠ k' := fun h' => h (h'.symm.trans hx)
+      rw [lookup_insertBump_ne _ _ _ (by simpa using h.symm), lookup_cons]
+      simp [this]
+    · simp only [lookup_cons, ih]
+
+theorem lookup_bump_self (k : Key) (nv : Option Val) (l : St) (hn : (l.map (·.1)).Nodup) (v : Val) (c : Nat)
+    (hl : lookup l k = some (v, c)) : lookup (bump k nv l) k = some (nv.getD v, c + 1) := by
+  induction l with
+  | nil => simp at hl
+  | cons x xs ih =>
+    simp only [List.map_cons, List.nodup_cons] at hn
+    rw [lookup_cons] at hl
+    simp only [bump]
+    split
+    · rename_i hx
+      simp only [hx, if_true, Option.some.injEq, Prod.mk.injEq] at hl
+      have := lookup_insertBump_self (k, nv.getD x.2.1, x.2.2 + 1) xs (by simpa [hx] using hn.1)
+      simpa [hl.1, hl.2] using this
+    · rename_i hx
+      simp only [hx, if_false] at hl
+      simp only [lookup_cons, hx, if_false]
+      exact ih hn.2 hl
+
+theorem mem_bump_count (k : Key) (nv : Option Val) (l : St) (a : Key × Val × Nat) (h : a ∈ bump k nv l) :
+    ∃ a' ∈ l, a'.2.2 ≤ a.2.2 := by
+  induction l with
+  | nil => simp [bump] at h
+  | cons x xs ih =>
+    simp only [bump] at h
+    split at h
+    · rcases (mem_insertBump _ _ _).1 h with rfl | h
+      · exact ⟨x, by simp, by simp⟩
+      · exact ⟨a, by simp [h], Nat.le_refl _⟩
+    · rcases List.mem_cons.1 h with rfl | h
+      · exact ⟨a, by simp, Nat.le_refl _⟩
+      · obtain ⟨a', h1, h2⟩ := ih h
+        exact ⟨a', by simp [h1], h2⟩
+
+abbrev Sorted (l : St) : Prop := l.Pairwise (fun a b => a.2.2 ≤ b.2.2)
+
+theorem sorted_insertBump (e : Key × Val × Nat) (l : St) (h : Sorted l) : Sorted (insertBump e l) := by
+  induction l with
+  | nil => simp [insertBump, Sorted]
+  | cons x xs ih =>
+    simp only [Sorted, List.pairwise_cons] at h
+    simp only [insertBump]
+    split
+    · rename_i hx
+      simp only [Sorted, List.pairwise_cons]
+      refine ⟨?_, ih h.2⟩
+      intro a ha
+      rcases (mem_insertBump _ _ _).1 ha with rfl | ha
+      · omega
+      · exact h.1 a ha
+    · rename_i hx
+      simp only [Sorted, List.pairwise_cons]
+      refine ⟨?_, h⟩
+      intro a ha
+      rcases List.mem_cons.1 ha with rfl | ha
+      · omega
+      · have := h.1 a ha; omega
+
+theorem sorted_bump (k : Key) (nv : Option Val) (l : St) (h : Sorted l) : Sorted (bump k nv l) := by
+  induction l with
+  | nil => simp [bump, Sorted]
+  | cons x xs ih =>
+    simp only [Sorted, List.pairwise_cons] at h
+    simp only [bump]
+    split
+    · exact sorted_insertBump _ _ h.2
+    · simp only [Sorted, List.pairwise_cons]
+      refine ⟨?_, ih h.2⟩
+      intro a ha
+      obtain ⟨a', h1, h2⟩ := mem_bump_count _ _ _ _ ha
+      have := h.1 a' h1; omega
+
+theorem wf_iff (cap : Nat) (l : St) :
+    Wf cap l ↔ (l.map (·.1)).Nodup ∧ l.length ≤ cap ∧ Sorted l ∧ ∀ e ∈ l, 1 ≤ e.2.2 := by
+  simp only [Wf, Sorted, List.pairwise_map]
+
+theorem wf_bump (cap : Nat) (k : Key) (nv : Option Val) (l : St) (h : Wf cap l) : Wf cap (bump k nv l) := by
+  rw [wf_iff] at h ⊢
+  obtain ⟨h1, h2, h3, h4⟩ := h
+  have hp := bump_keys_perm k nv l
+  refine ⟨hp.nodup_iff.2 h1, ?_, sorted_bump _ _ _ h3, ?_⟩
+  · have := hp.length_eq; simp only [List.length_map] at this; omega
+  · intro e he
+    obtain ⟨a', ha1, ha2⟩ := mem_bump_count _ _ _ _ he
+    have := h4 a' ha1; omega
+
+theorem without_insertBump (e : Key × Val × Nat) (l : St) : without (insertBump e l) e.1 = without l e.1 := by
+  induction l with
+  | nil => simp [insertBump, without]
+  | cons x xs ih =>
+    simp only [insertBump]
+    split
+    · simp only [without, List.filter_cons] at ih ⊢
+      rw [ih]
+    · simp [without, List.filter_cons]
+
+theorem without_bump (k : Key) (nv : Option Val) (l : St) : without (bump k nv l) k = without l k := by
+  induction l with
+  | nil => simp [bump]
+  | cons x xs ih =>
+    simp only [bump]
+    split
+    · rename_i hx
+      have := without_insertBump (k, nv.getD x.2.1, x.2.2 + 1) xs
+      simp only at this
+      rw [this]; simp [without, hx]
+    · simp only [without, List.filter_cons] at ih ⊢
+      rw [ih]
+
+theorem lookup_without (l : St) (k k' : Key) : lookup (without l k) k' = if k' = k then none else lookup l k' := by
+  induction l with
+  | nil => simp [without]
+  | cons x xs ih =>
+    simp only [without, List.filter_cons] at ih ⊢
+    by_cases hx : x.1 = k
+    · simp only [hx, ne_eq, not_true_eq_false, decide_false, Bool.false_eq_true, if_false, ih, lookup_cons]
+      by_cases hk : k' = k
+      · simp [hk]
+      · have : ¬ k = k' := fun h => hk h.symm
+        simp [hk, this]
+    · simp only [ne_eq, hx, not_false_eq_true, decide_true, if_true, lookup_cons, ih]
+      by_cases hk : k' = k
+      · have : ¬ x.1 = k' := fun h => hx (h.trans hk)
+        simp [hk, hx]
+      · simp [hk]
+
+
+/-! ### the primitives -/
+
 /-- the content as a multiset-like view: the entry of a key -/
-theorem wf_get (cap : Nat) (l l' : St) (k : Key) (v : Val) (h : Wf cap l) (hg : get l k = .ok (l', v)) : Wf cap l' := sorry
+theorem wf_get (cap : Nat) (l l' : St) (k : Key) (v : Val) (h : Wf cap l) (hg : get l k = .ok (l', v)) : Wf cap l' := by
+  unfold get at hg
+  split at hg
+  · simp only [Except.ok.injEq, Prod.mk.injEq] at hg
+    rw [← hg.1]; exact wf_bump cap k none l h
+  · simp at hg
+
+theorem wf_tail (cap : Nat) (x : Key × Val × Nat) (xs : St) (h : Wf cap (x :: xs)) : Wf cap xs := by
+  rw [wf_iff] at h ⊢
+  obtain ⟨h1, h2, h3, h4⟩ := h
+  simp only [List.map_cons, List.nodup_cons] at h1
+  simp only [Sorted, List.pairwise_cons] at h3
+  simp only [List.length_cons] at h2
+  exact ⟨h1.2, by omega, h3.2, fun e he => h4 e (List.mem_cons_of_mem _ he)⟩
+
+theorem wf_cons_one (cap : Nat) (k : Key) (v : Val) (l : St) (h : Wf cap l) (hk : lookup l k = none)
+    (hlen : l.length + 1 ≤ cap) : Wf cap ((k, v, 1) :: l) := by
+  rw [wf_iff] at h ⊢
+  obtain ⟨h1, h2, h3, h4⟩ := h
+  rw [lookup_eq_none_iff] at hk
+  refine ⟨?_, by simpa using hlen, ?_, ?_⟩
+  · simp only [List.map_cons, List.nodup_cons]; exact ⟨hk, h1⟩
+  · simp only [Sorted, List.pairwise_cons]; exact ⟨fun a ha => h4 a ha, h3⟩
+  · intro e he
+    rcases List.mem_cons.1 he with rfl | he
+    · exact Nat.le_refl _
+    · exact h4 e he
+
 theorem wf_set (cap : Nat) (hc : 1 ≤ cap) (l : St) (k : Key) (v : Val) (h : Wf cap l) :
-    ∃ l', set cap l k v = .ok l' ∧ Wf cap l' := sorry
-theorem wf_del (cap : Nat) (l l' : St) (k : Key) (h : Wf cap l) (hd : del l k = .ok l') : Wf cap l' := sorry
+    ∃ l', set cap l k v = .ok l' ∧ Wf cap l' := by
+  unfold set
+  split
+  · exact ⟨_, rfl, wf_bump cap k (some v) l h⟩
+  · rename_i hk
+    have hk : lookup l k = none := by simpa using hk
+    split
+    · rename_i hlen
+      match l, h, hk, hlen with
+      | [], _, _, hlen => simp at hlen; omega
+      | x :: xs, h, hk, hlen =>
+        refine ⟨_, rfl, ?_⟩
+        have hxs := wf_tail cap x xs h
+        have hk' : lookup xs k = none := by
+          rw [lookup_eq_none_iff] at hk ⊢
+          intro hm; exact hk (by simp only [List.map_cons]; exact List.mem_cons_of_mem _ hm)
+        have hl := h.2.1
+        simp only [List.length_cons] at hl
+        exact wf_cons_one cap k v xs hxs hk' hl
+    · rename_i hlen
+      exact ⟨_, rfl, wf_cons_one cap k v l h hk (by omega)⟩
+
+theorem wf_without (cap : Nat) (l : St) (k : Key) (h : Wf cap l) : Wf cap (without l k) := by
+  rw [wf_iff] at h ⊢
+  obtain ⟨h1, h2, h3, h4⟩ := h
+  have hs : (without l k).Sublist l := List.filter_sublist
+  refine ⟨h1.sublist (hs.map _), ?_, h3.sublist hs, fun e he => h4 e (hs.subset he)⟩
+  have := hs.length_le; omega
+
+theorem wf_del (cap : Nat) (l l' : St) (k : Key) (h : Wf cap l) (hd : del l k = .ok l') : Wf cap l' := by
+  unfold del at hd
+  split at hd
+  · simp only [Except.ok.injEq] at hd
+    rw [← hd]; exact wf_without cap l k h
+  · simp at hd
 
 /-- a successful lookup returns the stored value, adds one to the key's count and changes nothing else;
 an absent key raises `KeyError` -/
 theorem get_spec (cap : Nat) (l : St) (k : Key) (h : Wf cap l) :
     (∀ v c, lookup l k = some (v, c) → ∃ l', get l k = .ok (l', v) ∧ lookup l' k = some (v, c + 1) ∧
         ∀ k', k' ≠ k → lookup l' k' = lookup l k') ∧
-    (lookup l k = none → get l k = .error .keyError) := sorry
+    (lookup l k = none → get l k = .error .keyError) := by
+  constructor
+  · intro v c hl
+    refine ⟨bump k none l, by simp [get, hl], ?_, fun k' hk' => lookup_bump_ne k none l k' hk'⟩
+    simpa using lookup_bump_self k none l h.1 v c hl
+  · intro hl; simp [get, hl]
 
 /-- `c[k] = v` on a present key: the latest value is kept, the count grows by one, nothing else changes -/
 theorem set_present (cap : Nat) (l : St) (k : Key) (v : Val) (h : Wf cap l) (c : Nat) (w : Val)
     (hin : lookup l k = some (w, c)) :
-    ∃ l', set cap l k v = .ok l' ∧ lookup l' k = some (v, c + 1) ∧ ∀ k', k' ≠ k → lookup l' k' = lookup l k' := sorry
+    ∃ l', set cap l k v = .ok l' ∧ lookup l' k = some (v, c + 1) ∧ ∀ k', k' ≠ k → lookup l' k' = lookup l k' := by
+  refine ⟨bump k (some v) l, by simp [set, hin], ?_, fun k' hk' => lookup_bump_ne k (some v) l k' hk'⟩
+  simpa using lookup_bump_self k (some v) l h.1 w c hin
 
 /-- a new key with room left: inserted with count 1, nothing removed -/
 theorem set_room (cap : Nat) (l : St) (k : Key) (v : Val) (h : Wf cap l) (hnew : lookup l k = none)
     (hroom : l.length < cap) :
-    ∃ l', set cap l k v = .ok l' ∧ lookup l' k = some (v, 1) ∧ ∀ k', k' ≠ k → lookup l' k' = lookup l k' := sorry
+    ∃ l', set cap l k v = .ok l' ∧ lookup l' k = some (v, 1) ∧ ∀ k', k' ≠ k → lookup l' k' = lookup l k' := by
+  have _ := h
+  have : ¬ l.length ≥ cap := by omega
+  refine ⟨(k, v, 1) :: l, by simp [set, hnew, this], by simp [lookup_cons], ?_⟩
+  intro k' hk'
+  have : ¬ k = k' := fun h => hk' h.symm
+  simp [lookup_cons, this]
 
 /-- a new key into a full cache: exactly one key is removed, its count is the smallest among the keys present, the
 new key enters with count 1 and every other entry is untouched -/
@@ -32,11 +357,40 @@ theorem set_evicts_min (cap : Nat) (hc : 1 ≤ cap) (l : St) (k : Key) (v : Val)
     (hnew : lookup l k = none) (hfull : l.length = cap) :
     ∃ l' victim, set cap l k v = .ok l' ∧ victim ∈ l ∧ (∀ e ∈ l, victim.2.2 ≤ e.2.2) ∧
       lookup l' k = some (v, 1) ∧ lookup l' victim.1 = none ∧
-      ∀ k', k' ≠ k → k' ≠ victim.1 → lookup l' k' = lookup l k' := sorry
+      ∀ k', k' ≠ k → k' ≠ victim.1 → lookup l' k' = lookup l k' := by
+  match l, h, hnew, hfull with
+  | [], _, _, hfull => simp at hfull; omega
+  | x :: xs, h, hnew, hfull =>
+    rw [wf_iff] at h
+    obtain ⟨h1, h2, h3, h4⟩ := h
+    simp only [List.map_cons, List.nodup_cons] at h1
+    simp only [Sorted, List.pairwise_cons] at h3
+    have hge : cap ≤ xs.length + 1 := by simp only [List.length_cons] at hfull; omega
+    have hxk : ¬ x.1 = k := by
+      intro hx; rw [lookup_cons] at hnew; simp [hx] at hnew
+    have hxk' : ¬ k = x.1 := fun h => hxk h.symm
+    refine ⟨(k, v, 1) :: xs, x, by simp [set, hnew, hge], by simp, ?_, by simp [lookup_cons], ?_, ?_⟩
+    · intro e he
+      rcases List.mem_cons.1 he with rfl | he
+      · exact Nat.le_refl _
+      · exact h3.1 e he
+    · rw [lookup_cons]; simp only [hxk', if_false]
+      exact (lookup_eq_none_iff _ _).2 h1.1
+    · intro k' hk1 hk2
+      have e1 : ¬ k = k' := fun h => hk1 h.symm
+      have e2 : ¬ x.1 = k' := fun h => hk2 h.symm
+      simp [lookup_cons, e1, e2]
 
 theorem del_spec (cap : Nat) (l : St) (k : Key) (h : Wf cap l) :
     ((lookup l k).isSome → ∃ l', del l k = .ok l' ∧ lookup l' k = none ∧ ∀ k', k' ≠ k → lookup l' k' = lookup l k') ∧
-    (lookup l k = none → del l k = .error .keyError) := sorry
+    (lookup l k = none → del l k = .error .keyError) := by
+  have _ := h
+  constructor
+  · intro hs
+    refine ⟨without l k, by simp [del, hs], by simp [lookup_without], ?_⟩
+    intro k' hk'; simp [lookup_without, hk']
+  · intro hl; simp [del, hl]
+
 
 /-! ### the mixins on the abstract cache: total, and agreeing with the content -/
 
@@ -47,36 +401,333 @@ def SameContent (l l' : St) : Prop :=
     | none, none => True
     | _, _ => False
 
+theorem sameContent_iff (l l' : St) : SameContent l l' ↔
+    ∀ k, (lookup l k = none → lookup l' k = none) ∧
+      (∀ v c, lookup l k = some (v, c) → ∃ c', lookup l' k = some (v, c') ∧ c ≤ c') := by
+  constructor
+  · intro h k
+    have hk := h k
+    split at hk
+    · rename_i v c v' c' h1 h2
+      refine ⟨fun hn => by simp [hn] at h1, fun w d hw => ?_⟩
+      rw [h1] at hw
+      simp only [Option.some.injEq, Prod.mk.injEq] at hw
+      exact ⟨c', by rw [h2, ← hw.1, hk.1], by omega⟩
+    · rename_i h1 h2
+      exact ⟨fun _ => h2, fun w d hw => by simp [h1] at hw⟩
+    · exact hk.elim
+  · intro h k
+    obtain ⟨h1, h2⟩ := h k
+    cases hl : lookup l k with
+    | none => rw [h1 hl]; trivial
+    | some p =>
+      obtain ⟨v, c⟩ := p
+      obtain ⟨c', h3, h4⟩ := h2 v c hl
+      rw [h3]; exact ⟨rfl, h4⟩
+
+theorem SameContent.refl (l : St) : SameContent l l := by
+  rw [sameContent_iff]
+  exact fun k => ⟨id, fun v c h => ⟨c, h, Nat.le_refl _⟩⟩
+
+theorem SameContent.trans {l₁ l₂ l₃ : St} (h₁ : SameContent l₁ l₂) (h₂ : SameContent l₂ l₃) : SameContent l₁ l₃ := by
+  rw [sameContent_iff] at *
+  intro k
+  refine ⟨fun h => (h₂ k).1 ((h₁ k).1 h), fun v c h => ?_⟩
+  obtain ⟨c', h3, h4⟩ := (h₁ k).2 v c h
+  obtain ⟨c'', h5, h6⟩ := (h₂ k).2 v c' h3
+  exact ⟨c'', h5, by omega⟩
+
+theorem sameContent_bump (l : St) (k : Key) (hn : (l.map (·.1)).Nodup) : SameContent l (bump k none l) := by
+  rw [sameContent_iff]
+  intro k'
+  by_cases hk : k' = k
+  · subst hk
+    constructor
+    · intro hl
+      rw [lookup_eq_none_iff] at hl ⊢
+      intro hm; exact hl ((bump_keys_perm k' none l).mem_iff.1 hm)
+    · intro v c hl
+      exact ⟨c + 1, by simpa using lookup_bump_self k' none l hn v c hl, by omega⟩
+  · rw [lookup_bump_ne k none l k' hk]
+    exact ⟨id, fun v c h => ⟨c, h, Nat.le_refl _⟩⟩
+
+theorem sameContent_get (cap : Nat) (l l' : St) (k : Key) (v : Val) (h : Wf cap l) (hg : get l k = .ok (l', v)) :
+    SameContent l l' := by
+  unfold get at hg
+  split at hg
+  · simp only [Except.ok.injEq, Prod.mk.injEq] at hg
+    rw [← hg.1]; exact sameContent_bump l k h.1
+  · simp at hg
+
+/-- the value stored under a key (0 when absent) -/
+def valOf (l : St) (k : Key) : Val := ((lookup l k).map (·.1)).getD 0
+
+theorem valOf_sameContent {l l' : St} (h : SameContent l l') (k : Key) : valOf l' k = valOf l k := by
+  rw [sameContent_iff] at h
+  obtain ⟨h1, h2⟩ := h k
+  unfold valOf
+  cases hl : lookup l k with
+  | none => rw [h1 hl]
+  | some p =>
+    obtain ⟨v, c⟩ := p
+    obtain ⟨c', h3, _⟩ := h2 v c hl
+    rw [h3]; rfl
+
+theorem isSome_sameContent {l l' : St} (h : SameContent l l') (k : Key) (hk : (lookup l k).isSome) :
+    (lookup l' k).isSome := by
+  rw [sameContent_iff] at h
+  obtain ⟨h1, h2⟩ := h k
+  cases hl : lookup l k with
+  | none => simp [hl] at hk
+  | some p =>
+    obtain ⟨v, c⟩ := p
+    obtain ⟨c', h3, _⟩ := h2 v c hl
+    simp [h3]
+
+theorem itemsFrom_spec (cap : Nat) (ks : List Key) (l : St) (h : Wf cap l) (hks : ∀ k ∈ ks, (lookup l k).isSome) :
+    ∃ l', itemsFrom (prim cap) l ks = .ok (l', ks.map (fun k => (k, valOf l k))) ∧ SameContent l l' ∧ Wf cap l' := by
+  induction ks generalizing l with
+  | nil => exact ⟨l, rfl, SameContent.refl l, h⟩
+  | cons k ks ih =>
+    have hk := hks k (by simp)
+    cases hl : lookup l k with
+    | none => simp [hl] at hk
+    | some p =>
+      obtain ⟨v, c⟩ := p
+      obtain ⟨l1, hg, _, _⟩ := (get_spec cap l k h).1 v c hl
+      have hw1 := wf_get cap l l1 k v h hg
+      have hs1 := sameContent_get cap l l1 k v h hg
+      obtain ⟨l2, hi, hs2, hw2⟩ := ih l1 hw1 (fun k' hk' => isSome_sameContent hs1 k' (hks k' (by simp [hk'])))
+      refine ⟨l2, ?_, hs1.trans hs2, hw2⟩
+      have hg' : (prim cap).get l k = .ok (l1, v) := hg
+      simp only [itemsFrom, hg', hi, List.map_cons]
+      have : valOf l k = v := by simp [valOf, hl]
+      rw [this]
+      congr 3
+      apply List.map_congr_left
+      intro a _
+      rw [valOf_sameContent hs1]
+
 theorem items_spec (cap : Nat) (l : St) (h : Wf cap l) :
-    ∃ l', items (prim cap) l = .ok (l', l.map (fun e => (e.1, e.2.1))) ∧ SameContent l l' ∧ Wf cap l' := sorry
+    ∃ l', items (prim cap) l = .ok (l', l.map (fun e => (e.1, e.2.1))) ∧ SameContent l l' ∧ Wf cap l' := by
+  have hks : ∀ k ∈ l.map (·.1), (lookup l k).isSome := by
+    intro k hk
+    cases hl : lookup l k with
+    | none => exact ((lookup_eq_none_iff l k).1 hl hk).elim
+    | some p => rfl
+  obtain ⟨l', hi, hs, hw⟩ := itemsFrom_spec cap (l.map (·.1)) l h hks
+  refine ⟨l', ?_, hs, hw⟩
+  have : (prim cap).keys l = l.map (·.1) := rfl
+  rw [items, this, hi, List.map_map]
+  congr 2
+  apply List.map_congr_left
+  intro e he
+  simp [valOf, lookup_of_mem l h.1 e he]
 
 theorem contains_spec (cap : Nat) (l : St) (k : Key) (h : Wf cap l) :
-    ∃ l', contains (prim cap) l k = .ok (l', (lookup l k).isSome) ∧ SameContent l l' := sorry
+    ∃ l', contains (prim cap) l k = .ok (l', (lookup l k).isSome) ∧ SameContent l l' := by
+  cases hl : lookup l k with
+  | none =>
+    have hg : (prim cap).get l k = .error .keyError := (get_spec cap l k h).2 hl
+    exact ⟨l, by simp [contains, hg], SameContent.refl l⟩
+  | some p =>
+    obtain ⟨v, c⟩ := p
+    obtain ⟨l1, hg, _, _⟩ := (get_spec cap l k h).1 v c hl
+    have hg' : (prim cap).get l k = .ok (l1, v) := hg
+    exact ⟨l1, by simp [contains, hg'], sameContent_get cap l l1 k v h hg⟩
 
 theorem getD_spec (cap : Nat) (l : St) (k : Key) (h : Wf cap l) :
-    ∃ l', getD (prim cap) l k = .ok (l', (lookup l k).map (·.1)) ∧ SameContent l l' := sorry
+    ∃ l', getD (prim cap) l k = .ok (l', (lookup l k).map (·.1)) ∧ SameContent l l' := by
+  cases hl : lookup l k with
+  | none =>
+    have hg : (prim cap).get l k = .error .keyError := (get_spec cap l k h).2 hl
+    exact ⟨l, by simp [getD, hg], SameContent.refl l⟩
+  | some p =>
+    obtain ⟨v, c⟩ := p
+    obtain ⟨l1, hg, _, _⟩ := (get_spec cap l k h).1 v c hl
+    have hg' : (prim cap).get l k = .ok (l1, v) := hg
+    exact ⟨l1, by simp [getD, hg'], sameContent_get cap l l1 k v h hg⟩
 
 theorem pop_spec (cap : Nat) (l : St) (k : Key) (h : Wf cap l) :
     (∀ v c, lookup l k = some (v, c) → pop (prim cap) l k = .ok (without l k, v)) ∧
-    (lookup l k = none → pop (prim cap) l k = .error .keyError) := sorry
+    (lookup l k = none → pop (prim cap) l k = .error .keyError) := by
+  constructor
+  · intro v c hl
+    have hg : (prim cap).get l k = .ok (bump k none l, v) := by simp [prim, get, hl]
+    have hb := lookup_bump_self k none l h.1 v c hl
+    have hd : (prim cap).del (bump k none l) k = .ok (without l k) := by
+      simp [prim, del, hb, without_bump]
+    simp [pop, hg, hd]
+  · intro hl
+    have hg : (prim cap).get l k = .error .keyError := (get_spec cap l k h).2 hl
+    simp [pop, hg]
+
+theorem without_head (x : Key × Val × Nat) (r : St) (hn : ((x :: r).map (·.1)).Nodup) :
+    without (x :: r) x.1 = r := by
+  simp only [List.map_cons, List.nodup_cons] at hn
+  simp only [without, ne_eq, not_true_eq_false, decide_false, Bool.false_eq_true, not_false_eq_true,
+    List.filter_cons_of_neg]
+  rw [List.filter_eq_self]
+  intro a ha
+  have : a.1 ≠ x.1 := fun h' => hn.1 (h' ▸ List.mem_map_of_mem ha)
+  simpa using this
 
 theorem popitem_spec (cap : Nat) (l : St) (h : Wf cap l) :
     match l with
     | [] => popitem (prim cap) l = .error .keyError
-    | (k, v, _) :: r => popitem (prim cap) l = .ok (r, k, v) := sorry
+    | (k, v, _) :: r => popitem (prim cap) l = .ok (r, k, v) := by
+  match l, h with
+  | [], _ => simp [popitem, prim]
+  | (k, v, c) :: r, h =>
+    have hk : (prim cap).keys ((k, v, c) :: r) = k :: r.map (·.1) := rfl
+    have hp := (pop_spec cap ((k, v, c) :: r) k h).1 v c (by simp [lookup_cons])
+    have hw := without_head (k, v, c) r h.1
+    simp only at hw
+    simp [popitem, hk, hp, hw]
 
-theorem clear_spec (cap : Nat) (l : St) (h : Wf cap l) : clear (prim cap) l = .ok [] := sorry
+theorem clearLoop_spec (cap : Nat) (fuel : Nat) (l : St) (h : Wf cap l) (hf : l.length < fuel) :
+    clearLoop (prim cap) l fuel = .ok [] := by
+  induction fuel generalizing l with
+  | zero => omega
+  | succ n ih =>
+    match l, h, hf with
+    | [], _, _ => simp [clearLoop, prim]
+    | (k, v, c) :: r, h, hf =>
+      have hk : (prim cap).keys ((k, v, c) :: r) = k :: r.map (·.1) := rfl
+      have hp := popitem_spec cap ((k, v, c) :: r) h
+      simp only at hp
+      simp only [clearLoop, hk, hp]
+      exact ih r (wf_tail cap _ r h) (by simp only [List.length_cons] at hf; omega)
+
+theorem clear_spec (cap : Nat) (l : St) (h : Wf cap l) : clear (prim cap) l = .ok [] :=
+  clearLoop_spec cap _ l h (by simp [prim])
 
 theorem update_total (cap : Nat) (hc : 1 ≤ cap) (l : St) (ps : List (Key × Val)) (h : Wf cap l) :
-    ∃ l', update (prim cap) l ps = .ok l' ∧ Wf cap l' := sorry
+    ∃ l', update (prim cap) l ps = .ok l' ∧ Wf cap l' := by
+  induction ps generalizing l with
+  | nil => exact ⟨l, rfl, h⟩
+  | cons p ps ih =>
+    obtain ⟨k, v⟩ := p
+    obtain ⟨l1, hs, hw⟩ := wf_set cap hc l k v h
+    have hs' : (prim cap).set l k v = .ok l1 := hs
+    obtain ⟨l2, hu, hw2⟩ := ih l1 hw
+    exact ⟨l2, by simp [update, hs', hu], hw2⟩
 
 theorem setdefault_spec (cap : Nat) (hc : 1 ≤ cap) (l : St) (k : Key) (v : Val) (h : Wf cap l) :
     (∀ w c, lookup l k = some (w, c) → ∃ l', setdefault (prim cap) l k v = .ok (l', w) ∧ SameContent l l') ∧
-    (lookup l k = none → ∃ l', setdefault (prim cap) l k v = .ok (l', v) ∧ set cap l k v = .ok l') := sorry
+    (lookup l k = none → ∃ l', setdefault (prim cap) l k v = .ok (l', v) ∧ set cap l k v = .ok l') := by
+  constructor
+  · intro w c hl
+    obtain ⟨l1, hg, _, _⟩ := (get_spec cap l k h).1 w c hl
+    have hg' : (prim cap).get l k = .ok (l1, w) := hg
+    exact ⟨l1, by simp [setdefault, hg'], sameContent_get cap l l1 k w h hg⟩
+  · intro hl
+    have hg : (prim cap).get l k = .error .keyError := (get_spec cap l k h).2 hl
+    obtain ⟨l1, hs, _⟩ := wf_set cap hc l k v h
+    have hs' : (prim cap).set l k v = .ok l1 := hs
+    exact ⟨l1, by simp [setdefault, hg, hs'], hs⟩
+
+
+/-! ### comparison with a plain dict -/
+
+theorem length_le_of_nodup_subset {α : Type} [DecidableEq α] (l₁ l₂ : List α) (hn : l₁.Nodup) (hs : l₁ ⊆ l₂) :
+    l₁.length ≤ l₂.length := by
+  induction l₁ generalizing l₂ with
+  | nil => simp
+  | cons a l₁ ih =>
+    simp only [List.nodup_cons] at hn
+    have ha : a ∈ l₂ := hs (by simp)
+    have hs' : l₁ ⊆ l₂.erase a := by
+      intro b hb
+      have hne : b ≠ a := fun h => hn.1 (h ▸ hb)
+      exact (List.mem_erase_of_ne hne).2 (hs (List.mem_cons_of_mem _ hb))
+    have := ih (l₂.erase a) hn.2 hs'
+    rw [List.length_erase_of_mem ha] at this
+    have hpos : 0 < l₂.length := List.length_pos_of_mem ha
+    simp only [List.length_cons]; omega
+
+theorem subset_of_nodup_subset_length {α : Type} [DecidableEq α] (l₁ l₂ : List α) (hn : l₁.Nodup) (hs : l₁ ⊆ l₂)
+    (hl : l₂.length ≤ l₁.length) : l₂ ⊆ l₁ := by
+  intro b hb
+  apply Classical.byContradiction
+  intro hnb
+  have hs' : l₁ ⊆ l₂.erase b := by
+    intro a ha
+    have hne : a ≠ b := fun h => hnb (h ▸ ha)
+    exact (List.mem_erase_of_ne hne).2 (hs ha)
+  have := length_le_of_nodup_subset l₁ (l₂.erase b) hn hs'
+  rw [List.length_erase_of_mem hb] at this
+  have hpos : 0 < l₂.length := List.length_pos_of_mem hb
+  omega
+
+theorem dlookup_eq_none_iff (o : List (Key × Val)) (k : Key) : o.lookup k = none ↔ k ∉ o.map (·.1) := by
+  induction o with
+  | nil => simp
+  | cons x xs ih =>
+    obtain ⟨a, b⟩ := x
+    simp only [List.lookup_cons, List.map_cons, List.mem_cons, not_or]
+    by_cases h : k = a
+    · simp [h]
+    · have : (k == a) = false := by simpa using h
+      simp only [this, ih]
+      exact ⟨fun h' => ⟨h, h'⟩, fun h' => h'.2⟩
 
 theorem eq_spec (cap : Nat) (l : St) (other : List (Key × Val)) (h : Wf cap l)
     (ho : (other.map (·.1)).Nodup) :
     ∃ l' b, eqDict (prim cap) l other = .ok (l', b) ∧ SameContent l l' ∧
-      (b = true ↔ ∀ k, (lookup l k).map (·.1) = other.lookup k) := sorry
+      (b = true ↔ ∀ k, (lookup l k).map (·.1) = other.lookup k) := by
+  obtain ⟨l', hi, hs, _⟩ := items_spec cap l h
+  refine ⟨l', ((l.map (fun e => (e.1, e.2.1))).length == other.length &&
+    (l.map (fun e => (e.1, e.2.1))).all (fun p => other.lookup p.1 == some p.2)), by simp only [eqDict, hi], hs, ?_⟩
+  simp only [Bool.and_eq_true, beq_iff_eq, List.length_map, List.all_eq_true, List.mem_map,
+    forall_exists_index, and_imp]
+  constructor
+  · rintro ⟨hlen, hall⟩
+    have hall' : ∀ e ∈ l, other.lookup e.1 = some e.2.1 := fun e he => hall _ e he rfl
+    have hsub : l.map (·.1) ⊆ other.map (·.1) := by
+      intro k hk
+      obtain ⟨e, he, rfl⟩ := List.mem_map.1 hk
+      apply Classical.byContradiction
+      intro hn
+      have := (dlookup_eq_none_iff other e.1).2 hn
+      rw [hall' e he] at this; simp at this
+    have hsub' := subset_of_nodup_subset_length _ _ h.1 hsub (by simp [hlen])
+    intro k
+    cases hl : lookup l k with
+    | none =>
+      have hk := (lookup_eq_none_iff l k).1 hl
+      have : k ∉ other.map (·.1) := fun hm => hk (hsub' hm)
+      simp [(dlookup_eq_none_iff other k).2 this]
+    | some p =>
+      obtain ⟨v, c⟩ := p
+      have := hall' _ (mem_of_lookup l k v c hl)
+      simp [this]
+  · intro hk
+    have hmem : ∀ k, k ∈ l.map (·.1) ↔ k ∈ other.map (·.1) := by
+      intro k
+      have h1 := lookup_eq_none_iff l k
+      have h2 := dlookup_eq_none_iff other k
+      have h3 := hk k
+      constructor
+      · intro hm
+        apply Classical.byContradiction
+        intro hn
+        rw [h2.2 hn] at h3
+        simp only [Option.map_eq_none_iff] at h3
+        exact h1.1 h3 hm
+      · intro hm
+        apply Classical.byContradiction
+        intro hn
+        rw [h1.2 hn] at h3
+        simp only [Option.map_none] at h3
+        exact h2.1 h3.symm hm
+    constructor
+    · have := ((List.perm_ext_iff_of_nodup h.1 ho).2 hmem).length_eq
+      simpa using this
+    · intro p e he hp
+      subst hp
+      have := hk e.1
+      rw [lookup_of_mem l h.1 e he] at this
+      simp [← this]
 
 end WindVerif.Cache.LfuSpec
